@@ -88,6 +88,11 @@ def instances(tier, seed):
         s = copy.deepcopy(models[mi % 3])
         s.objective = objectives(s)[2]
         add(fam.with_horizon(s, (('num', Fr(1, 2)), ('num', Fr(2)))), Cfg(method, N=[2, 3][mi % 2], M=1, intg=intg or 'rk', grid=g, degree=2, scheme='radau'))
+    # lowest collocation degrees with a true integral term (quadrature weights of one-point rules)
+    for mi, (degree, scheme) in enumerate(((1, 'radau'), (1, 'legendre'), (2, 'legendre'))):
+        s = copy.deepcopy(models[mi % 3])
+        s.objective = objectives(s)[[0, 3, 4][mi]]
+        add(fam.with_horizon(s, Hsym[mi % len(Hsym)]), Cfg('DC', N=2, M=[1, 2][mi % 2], grid=[fam.G_UNI, fam.G_GEO_LOC][mi % 2], degree=degree, scheme=scheme))
     # seeded random objective term lists over random models (configuration side widened; values stay symbolic)
     from .. import randspec
     nrand = 6 if tier == 'quick' else 160
